@@ -366,3 +366,5 @@ theorem concat_agrees (left right buf : Bytes) (fuel : Nat) (text : Res Bytes) (
         if_true]
       rw [← hmain]
       cases Tr.concat_jsonb fuel left right buf <;> rfl
+
+end Jsonb.TrAgree
